@@ -44,10 +44,11 @@ META = {
                     'navigation/TOC (which repeat titles only) cannot contribute body markers',
                     'the (input x configuration) product of the quantifier is sampled; the run-independence clause is what '
                     'the simulator adds'],
-    'probe_names': ['split_above_all_levels', 'split_below_all_levels', 'generated_id_unit', 'label_id_unit',
+    'probe_names': ['corpus_document', 'split_above_all_levels', 'split_below_all_levels', 'generated_id_unit', 'label_id_unit',
                     'same_title_prefix', 'empty_title', 'single_file_template', 'stale_same_name', 'unrelated_docs_before',
                     'footnote_in_subunit', 'exec_env', 'starred_unit', 'e2_history'],
     'shrink_budget': 60,
+    'enum_batch': {'quick': 2, 'thorough': 2},
 }
 RUN_TIMEOUT = 3600
 JOB = 'sim.props.c13:render_jobs'
@@ -391,8 +392,31 @@ def _unrelated(k):
             'Unrelated u%d $x$ \\begin{itemize}\\item a\\end{itemize}\\subsection{Deep}text\\end{document}\n' % (k, k, k))
 
 
+def judge_names_only(cfg, out):
+    """Documents of the repository's own test corpus carry no markers: only the name clauses (S3) and,
+    through the summary, run independence (S4) are judged."""
+    if not out['ok']:
+        return None, None                       # outside the premise (needs files that are not there)
+    issued = out.get('issued') or []
+    files = out['files']
+    if len(issued) != len(set(issued)):
+        return ({'sig': 'C13|names|duplicate', 'detail': {'issued': issued}}, None)
+    if sorted(issued) != sorted(files):
+        return ({'sig': 'C13|names|issued-vs-written', 'detail': {'issued': sorted(issued), 'written': sorted(files)}}, None)
+    text = dict((n, ' '.join(markers_words(t))) for n, t in files.items())
+    return None, {'names': sorted(files), 'marker_file': text}
+
+
+def markers_words(htmltext):
+    p = _Text()
+    p.feed(htmltext)
+    return ' '.join(p.out).split()
+
+
 def judge(doc, cfg, out, info):
     """S1-S3 on one job's own writes -> (violation|None, summary for S4)."""
+    if doc.get('corpus'):
+        return judge_names_only(cfg, out)
     if not out['ok']:
         return ({'sig': 'C13|raise|%s|%s' % (_site(out.get('traceback', '')), out.get('exception')),
                  'detail': {'exception': out.get('exception'), 'message': out.get('message'),
@@ -474,7 +498,14 @@ def execute(record):
         res['digest'] = res['log_digest'] = core.hexdigest([])
         return res
     doc = docs[0]
-    src = doc_source(doc)
+    if doc.get('corpus'):
+        try:
+            with open(os.path.join(core.REPO, doc['corpus']), encoding='utf-8') as f:
+                src = f.read()
+        except OSError:
+            src = '\\documentclass{article}\\begin{document}missing\\end{document}\n'
+    else:
+        src = doc_source(doc)
     root = lifetimes.make_root('c13')
     clock = lifetimes.T0 + 5000
     summaries = {}
@@ -538,6 +569,15 @@ def execute(record):
                     break
     finally:
         lifetimes.remove_root(root)
+    if doc.get('corpus'):
+        res['violations'] = viol
+        res['probes'] = dict((k, 1) for k in info)
+        res['probes']['corpus_document'] = 1
+        res['nontrivial'] = len(summaries) >= 2
+        res['steps'] = len(settings)
+        res['digest'] = core.hexdigest([doc, cfg])
+        res['log_digest'] = core.hexdigest(log)
+        return res
     # probes
     lv = [u['level'] for u in _all_units(doc)]
     if lv and cfg['split'] >= max(lv):
@@ -571,6 +611,29 @@ def execute(record):
     return res
 
 
+CORPUS = ['unittests/amsthm/source.tex', 'unittests/sources/floats.tex', 'unittests/sources/Alignment.tex',
+          'unittests/sources/cancel.tex', 'unittests/sources/align.tex', 'unittests/sources/footnotes.tex',
+          'unittests/Packages/sources/natbib.tex', 'unittests/Packages/sources/pifont.tex', 'unittests/Packages/sources/bib.tex',
+          'unittests/Packages/sources/textcomp.tex', 'unittests/Packages/sources/babel.tex', 'unittests/Packages/sources/multibib.tex']
+
+
+def enumerate_cases(base_seed, tier):
+    """The repository's own test documents under a few configurations: names and run independence only."""
+    import random
+    out = []
+    cfgs = [(2, 'index [$id, sect$num(4)]'), (1, '[$title(2), sect$num(3)]'), (0, 'index [$id, $title(3), f$num]'), (3, '[$ref, $id, s$num]')]
+    for k, rel in enumerate(CORPUS):
+        for j, (split, tpl) in enumerate(cfgs if tier == 'thorough' else cfgs[:2]):
+            r = random.Random(core.h64('C13-corpus', base_seed, k, j))
+            cfg = {'split': split, 'template': tpl, 'single': False, 'bad': None, 'badsub': '-', 'renderer': ['HTML5', 'default']}
+            other = dict(cfg, split=0, template='front [$id, x$num(2)]')
+            env = {'hashseed': r.randrange(1, 1 << 30), 'perm': r.randrange(1 << 30), 'dclock': 86400, 'cwd_depth': 1,
+                   'outdir': 'o', 'unrelated': 1, 'useexec': True}
+            out.append({'property': PID, 'seed': core.h64('C13-corpus', k, j), 'swarm': {'cfg': cfg, 'other': other, 'env': env},
+                        'ops': [{'op': 'DOC', 'doc': {'corpus': rel}}, {'op': 'E0'}, {'op': 'E1'}, {'op': 'E2'}]})
+    return out
+
+
 def _all_units(doc):
     out = []
 
@@ -585,7 +648,7 @@ def _all_units(doc):
 def simplify(record):
     ops = record['ops']
     for i, op in enumerate(ops):
-        if op.get('op') != 'DOC':
+        if op.get('op') != 'DOC' or op['doc'].get('corpus'):
             continue
         doc = op['doc']
 
